@@ -113,7 +113,9 @@ def reg_work(res, tie, fmt, choice, fs, variant):
     if "R.cred-type" not in fs:
         outcomes["dict"] = cases.run_reg(c, e, "dict")
         outcomes["text"] = cases.run_reg(c, e, "text")
-    for nm, wrap in (("bytes-subclass", MyBytes), ("memoryview", memoryview)):
+    for nm, wrap in (("bytes-subclass", MyBytes), ("memoryview", memoryview),
+                     ("memoryview-of-writable-buffer", lambda b: memoryview(bytearray(b))),
+                     ("memoryview-slice", lambda b: memoryview(b"\x00" + bytes(b) + b"\x00")[1:-1])):
         c2 = dict(c, raw_id=wrap(c["raw_id"]), client_data_json=wrap(c["client_data_json"]), attestation_object=wrap(c["attestation_object"]))
         outcomes[nm] = cases.run_reg(c2, dict(e, challenge=wrap(e["challenge"])))
     res.evaluations += len(outcomes)
@@ -176,7 +178,9 @@ def work(tasks, idx):
         if "A.cred-type" not in fs:   # the JSON forms always carry type public-key
             outcomes["dict"] = cases.run_auth(a, e, "dict")
             outcomes["text"] = cases.run_auth(a, e, "text")
-        for nm, wrap in (("bytes-subclass", MyBytes), ("memoryview", memoryview)):
+        for nm, wrap in (("bytes-subclass", MyBytes), ("memoryview", memoryview),
+                         ("memoryview-of-writable-buffer", lambda b: memoryview(bytearray(b))),
+                         ("memoryview-slice", lambda b: memoryview(b"\x00" + bytes(b) + b"\x00")[1:-1])):
             a2, e2 = byte_forms(a, e, wrap)
             outcomes[nm] = cases.run_auth(a2, e2)
         res.evaluations += len(outcomes) - 1
